@@ -2,15 +2,15 @@ from nucsvc.enginespec import *
 
 HE = "nucs/heuristics/"
 for name, k in (("min_value", 1), ("max_value", 1), ("split_low", 1)):
-    contract(f"{HE}{name}_dom_heuristic.py::{name}_dom_heuristic", types=DH_TYPES, props=["C09", "C02", "C16", "C19"],
+    contract(f"{HE}{name}_dom_heuristic.py::{name}_dom_heuristic", types=DH_TYPES, props=["C09", "C02", "C16", "C19", "C08"],
              requires=dom_heuristic_requires(k), ensures=dom_heuristic_ensures(k), modifies=DH_MODIFIES, tags=DH_TAGS,
              arities=[{"H": 3, "D": 2, "P": 1, "_pin": {"stacks_top": [0]}}, {"H": 3, "D": 2, "P": 1, "_pin": {"stacks_top": [1]}}])
 
-contract(HE + "value_dom_heuristic.py::value_dom_heuristic", types=dict(DH_TYPES, value="int"), props=["C09", "C02", "C16", "C19"],
+contract(HE + "value_dom_heuristic.py::value_dom_heuristic", types=dict(DH_TYPES, value="int"), props=["C09", "C02", "C16", "C19", "C08"],
          requires=dom_heuristic_requires(2) + ["shr_domains_stack[stacks_top[0], dom_idx, MIN] <= value and value <= shr_domains_stack[stacks_top[0], dom_idx, MAX]"],
          ensures=dom_heuristic_ensures(2), modifies=DH_MODIFIES, tags=DH_TAGS, arities=[{"H": 4, "D": 2, "P": 1, "_pin": {"stacks_top": [0]}}, {"H": 4, "D": 2, "P": 1, "_pin": {"stacks_top": [1]}}])
 
-contract(HE + "mid_value_dom_heuristic.py::mid_value_dom_heuristic", types=DH_TYPES, props=["C09", "C02", "C16", "C19"],
+contract(HE + "mid_value_dom_heuristic.py::mid_value_dom_heuristic", types=DH_TYPES, props=["C09", "C02", "C16", "C19", "C08"],
          requires=dom_heuristic_requires(2), ensures=dom_heuristic_ensures(2), modifies=DH_MODIFIES, tags=DH_TAGS, arities=[{"H": 4, "D": 2, "P": 1, "_pin": {"stacks_top": [0]}}, {"H": 4, "D": 2, "P": 1, "_pin": {"stacks_top": [1]}}])
 
 interface("DomHeuristic", types=DH_TYPES, requires=dom_heuristic_requires(2), ensures=dom_heuristic_ensures(2), modifies=DH_MODIFIES)
@@ -50,7 +50,7 @@ contract(HE + "max_regret_var_heuristic.py::max_regret_var_heuristic", types=COS
                 2: dict(index="j", fingerprint="for range(shr_domain[MIN], shr_domain[MAX] + 1)", invariant=[("C02.regret", "best_cost <= second_cost")])},
          arities=[{"H": 2, "D": 2, "K": 2, "D2": 2, "W": 3}])
 
-contract(HE + "min_cost_dom_heuristic.py::min_cost_dom_heuristic", types=dict(DH_TYPES, params="i64[D2,W]"), props=["C09", "C02", "C16", "C19"],
+contract(HE + "min_cost_dom_heuristic.py::min_cost_dom_heuristic", types=dict(DH_TYPES, params="i64[D2,W]"), props=["C09", "C02", "C16", "C19", "C08"],
          requires=dom_heuristic_requires(2) + ["D2 == D", "0 <= shr_domains_stack[stacks_top[0], dom_idx, MIN] and shr_domains_stack[stacks_top[0], dom_idx, MAX] < W",
                                               "forall(v, 0, W, 0 < params[dom_idx, v] and params[dom_idx, v] < 9223372036854775807)"],
          ensures=dom_heuristic_ensures(2), modifies=DH_MODIFIES, tags=DH_TAGS,
